@@ -40,6 +40,18 @@ def mk(K: dict, op: str = ""):
     return Kt
 
 
+def scalar_of(c, reflected: bool = False):
+    """the type of a scalar operand is a presentation (rotated with the array layout), as in harness/c03.py; a numpy
+    scalar on the LEFT would take over the operation itself (numpy's own __mul__), so the reflected form keeps Python types"""
+    import bind
+    v = float(c)
+    lay = bind.get_layout()
+    if reflected:
+        return int(v) if (lay == "grown" and v.is_integer()) else v
+    return {"default": float, "swapped": (np.int64 if v.is_integer() else np.float64), "strided": np.float32,
+            "grown": (int if v.is_integer() else float)}[lay](v)
+
+
 def norms(M, nt):
     return np.array([np.linalg.norm(M[:, r], ord=nt) for r in range(M.shape[1])])
 
@@ -159,9 +171,9 @@ def call(op: str, a: dict) -> dict:
             elif op == "neg":
                 res = -K
             elif op == "scalar":
-                res = K * float(a["c"])
+                res = K * scalar_of(a["c"])
             elif op == "rscalar":
-                res = float(a["c"]) * K
+                res = scalar_of(a["c"], reflected=True) * K
             elif op == "update_weights":
                 K.update(-1, np.array(a["data"], dtype=float))
             elif op == "update_mode":
